@@ -865,6 +865,133 @@ func closeVsStableReal(rounds int) (calls int, viols []Violation) {
 	return calls, viols
 }
 
+// stableConcReal: StableStore isolation under concurrency on the real filesystem + BoltDB (C08): G goroutines, each
+// owning its own keys, Set/SetUint64 then Get/GetUint64 — an acknowledged write must read back as written whatever
+// the other goroutines write to other keys; after Close/Open every key holds its owner's last acknowledged value.
+// Plus one forced interleaving: SetUint64(a) parked after its closed check while SetUint64(b) runs to completion.
+func stableConcReal(rounds int) (calls int, viols []Violation) {
+	base := os.Getenv("VERIF_TMP")
+	add := func(what, detail string, ops ...string) {
+		if len(viols) < 4 {
+			viols = append(viols, Violation{Property: "C08", What: what, Detail: detail, Ops: append([]string{"real filesystem + BoltDB"}, ops...)})
+		}
+	}
+	dir, err := os.MkdirTemp(base, "verif-stable-")
+	if err != nil {
+		return 0, nil
+	}
+	defer os.RemoveAll(dir)
+	open := func() *wal.WAL {
+		w, err := wal.Open(dir, wal.WithLogger(hclog.NewNullLogger()), wal.WithSegmentSize(4096))
+		if err != nil {
+			add("Open failed", err.Error())
+			return nil
+		}
+		return w
+	}
+	w := open()
+	if w == nil {
+		return
+	}
+	// forced interleaving
+	{
+		p := newParker()
+		wal.SetVerifYield(p.hit)
+		p.arm("Set:after-closed-check")
+		a := goCall(func() string { return walClass(w.SetUint64([]byte("forced-a"), 7)) })
+		if p.waitParked("Set:after-closed-check", concTimeout) {
+			rb := walClass(w.SetUint64([]byte("forced-b"), 9))
+			p.release("Set:after-closed-check")
+			ra := a.wait(concTimeout)
+			va, ea := w.GetUint64([]byte("forced-a"))
+			vb, eb := w.GetUint64([]byte("forced-b"))
+			calls += 4
+			if ra != "ok" || rb != "ok" || ea != nil || eb != nil || va != 7 || vb != 9 {
+				add("two acknowledged SetUint64 calls on different keys interfered", fmt.Sprintf("SetUint64(forced-a,7)=%s SetUint64(forced-b,9)=%s; GetUint64(forced-a)=%d,%v GetUint64(forced-b)=%d,%v", ra, rb, va, ea, vb, eb),
+					"SetUint64(forced-a, 7) parked at yield point Set:after-closed-check", "SetUint64(forced-b, 9) runs to completion", "resume", "GetUint64 of both keys")
+			}
+		} else {
+			p.release("Set:after-closed-check")
+			a.wait(concTimeout)
+		}
+		wal.SetVerifYield(nil)
+	}
+	const G = 6
+	final := make([]uint64, G)
+	finalB := make([]string, G)
+	for k := 0; k < rounds && len(viols) == 0; k++ {
+		var wg sync.WaitGroup
+		var vmu sync.Mutex
+		var n int64
+		for g := 0; g < G; g++ {
+			wg.Add(1)
+			go func(g int) {
+				defer wg.Done()
+				ku := []byte(fmt.Sprintf("u64-key-%d", g))
+				kb := []byte(fmt.Sprintf("bytes-key-%d", g))
+				for i := 0; i < 12; i++ {
+					v := uint64(g+1)<<32 | uint64(k)<<8 | uint64(i)
+					if err := w.SetUint64(ku, v); err != nil {
+						vmu.Lock()
+						add("SetUint64 failed", err.Error())
+						vmu.Unlock()
+						return
+					}
+					got, err := w.GetUint64(ku)
+					if err != nil || got != v {
+						vmu.Lock()
+						add("GetUint64 does not return the value of the last acknowledged SetUint64 of that key", fmt.Sprintf("key %s: set %#x, got %#x err=%v (other goroutines only write other keys)", ku, v, got, err),
+							fmt.Sprintf("%d goroutines, each: SetUint64(own key, v); GetUint64(own key)", G))
+						vmu.Unlock()
+						return
+					}
+					final[g] = v
+					bv := fmt.Sprintf("val-%d-%d-%d", g, k, i)
+					if err := w.Set(kb, []byte(bv)); err != nil {
+						vmu.Lock()
+						add("Set failed", err.Error())
+						vmu.Unlock()
+						return
+					}
+					gb, err := w.Get(kb)
+					if err != nil || string(gb) != bv {
+						vmu.Lock()
+						add("Get does not return the value of the last acknowledged Set of that key", fmt.Sprintf("key %s: set %q, got %q err=%v", kb, bv, gb, err))
+						vmu.Unlock()
+						return
+					}
+					finalB[g] = bv
+					atomic.AddInt64(&n, 4)
+				}
+			}(g)
+		}
+		wg.Wait()
+		calls += int(n)
+		if len(viols) > 0 {
+			break
+		}
+		// restart: the last acknowledged values survive
+		w.Close()
+		if w = open(); w == nil {
+			return
+		}
+		for g := 0; g < G; g++ {
+			got, err := w.GetUint64([]byte(fmt.Sprintf("u64-key-%d", g)))
+			if err != nil || got != final[g] {
+				add("after Close/Open GetUint64 does not return the last acknowledged value", fmt.Sprintf("key u64-key-%d: want %#x got %#x err=%v", g, final[g], got, err))
+			}
+			gb, err := w.Get([]byte(fmt.Sprintf("bytes-key-%d", g)))
+			if err != nil || string(gb) != finalB[g] {
+				add("after Close/Open Get does not return the last acknowledged value", fmt.Sprintf("key bytes-key-%d: want %q got %q err=%v", g, finalB[g], gb, err))
+			}
+		}
+	}
+	if w != nil {
+		w.Close()
+	}
+	return calls, viols
+}
+
 func suiteConc(seed uint64, tier string) *Report {
 	rep := newReport("conc", seed, tier)
 	rep.Rule = "forced schedules: each LogStore/StableStore call parked at its post-closed-check yield point (and between loading the state pointer and taking the reference) while Close runs to completion; a writer parked waiting for a rotation while Close runs; readers pinned inside a file read across head and tail truncations; a reader parked before taking its reference across a head truncation; readers probing from inside the VFS write/fsync of an append — outcome classified (value / ErrClosed / other error / panic / blocked). Free-running stress: N readers (FirstIndex, LastIndex, GetLog around the live range) against a writer appending with rotation, truncating head and tail and re-appending different content; every read must match one of the log versions current between its start and its end (+1 for the operation in flight). Non-trivial = schedules that reached their park point; distinct by schedule name."
@@ -925,6 +1052,17 @@ func suiteConc(seed uint64, tier string) *Report {
 		rep.Ops += n
 		rep.Dist["close-vs-calls-realfs"] = n
 		rep.Cases += rounds
+		rep.Violations = append(rep.Violations, viols...)
+	}
+	{
+		rounds := 6
+		if tier == "thorough" {
+			rounds = 60
+		}
+		n, viols := stableConcReal(rounds)
+		rep.Ops += n
+		rep.Dist["stable-concurrent-realfs"] = n
+		rep.Cases += rounds + 1
 		rep.Violations = append(rep.Violations, viols...)
 	}
 	rep.NonTrivial = len(shapes)
